@@ -595,6 +595,110 @@ theorem conversion_exact_on_reachable (ws : List Nat) (hw : WidthsWF ws) (ops : 
     utf8byte (proj (run ws ops).idx) ws p = .ok (prefixB ws p) :=
   utf8byte_naive _ ws hw (reachable_idxWF ws hw ops) p hp
 
+/-! ### the text is replaced -/
+
+theorem step_inv (ws : List Nat) (hw : WidthsWF ws) (s : St) (sels : List Sel) (op : Op)
+    (h : Inv ws sels s.idx) (hn : s.nsel = sels.length) :
+    ∃ sels', Inv ws sels' (step ws s op).idx ∧ (step ws s op).nsel = sels'.length := by
+  have := foldl_inv ws hw [op] s sels h hn
+  simp only [List.foldl_cons, List.foldl_nil] at this
+  refine ⟨_, this, ?_⟩
+  cases op with
+  | milestones i => simp only [step]; split <;> exact hn
+  | sel b e =>
+    simp only [step]
+    have hk := (known_spec ws sels s.idx h b e).1
+    by_cases c : b ≤ e ∧ e ≤ ws.length ∧ hasRange sels b e = false
+    · have c' : b ≤ e ∧ e ≤ ws.length ∧ (known s.idx b e).isNone = true := by
+        refine ⟨c.1, c.2.1, ?_⟩
+        cases hx : known s.idx b e with
+        | none => rfl
+        | some v =>
+          have := (hasRange_iff sels b e).mpr (hk.mp (by simp [hx]))
+          rw [c.2.2] at this; cases this
+      rw [if_pos c, if_pos c']
+      obtain ⟨m', hm', _⟩ := inv_insertSel ws hw sels s.idx b e s.nsel c.1 c.2.1 h
+      rw [hm']
+      simp [hn]
+    · have c' : ¬ (b ≤ e ∧ e ≤ ws.length ∧ (known s.idx b e).isNone = true) := by
+        rintro ⟨c1, c2, c3⟩
+        apply c
+        refine ⟨c1, c2, ?_⟩
+        cases hr : hasRange sels b e with
+        | false => rfl
+        | true =>
+          have := hk.mpr ((hasRange_iff sels b e).mp hr)
+          cases hx : known s.idx b e with
+          | none => simp [hx] at this
+          | some v => simp [hx] at c3
+      rw [if_neg c, if_neg c']
+      exact hn
+
+/-- what was built on the empty text is right on any text (there is only position 0) -/
+theorem inv_of_empty_text (ws' : List Nat) (sels : List Sel) (m : Index) (h : Inv [] sels m) : Inv ws' sels m := by
+  refine ⟨h.asc, ?_, h.content, h.present⟩
+  intro k it hm
+  obtain ⟨h1, h2⟩ := h.entries k it hm
+  have hk : k = 0 := by simpa using h1
+  subst hk
+  exact ⟨Nat.zero_le _, by rw [h2]; simp [prefixB]⟩
+
+def TOp.wf : TOp → Prop
+  | .op _ => True
+  | .retext ws' _ => WidthsWF ws'
+
+theorem foldlT_inv : ∀ (ops : List TOp) (p : List Nat × St) (sels : List Sel), (∀ o ∈ ops, o.wf) → WidthsWF p.1 →
+    Inv p.1 sels p.2.idx → p.2.nsel = sels.length →
+    WidthsWF (ops.foldl stepT p).1 ∧ ∃ sels', Inv (ops.foldl stepT p).1 sels' (ops.foldl stepT p).2.idx := by
+  intro ops
+  induction ops with
+  | nil => intro p sels _ hw h _; exact ⟨hw, sels, h⟩
+  | cons o r ih =>
+    intro p sels hwf hw h hn
+    simp only [List.foldl_cons]
+    have hr : ∀ o ∈ r, o.wf := fun o ho => hwf o (List.mem_cons_of_mem _ ho)
+    cases o with
+    | op o =>
+      obtain ⟨sels', h', hn'⟩ := step_inv p.1 hw p.2 sels o h hn
+      exact ih (p.1, step p.1 p.2 o) sels' hr hw h' hn'
+    | retext ws' i =>
+      have hw' : WidthsWF ws' := hwf (.retext ws' i) (by simp)
+      simp only [stepT]
+      by_cases he : p.1.isEmpty = true
+      · have hnil : p.1 = [] := List.isEmpty_iff.mp he
+        rw [if_pos he]
+        have h0 : Inv ws' sels p.2.idx := inv_of_empty_text ws' sels p.2.idx (hnil ▸ h)
+        obtain ⟨sels', h', hn'⟩ := step_inv ws' hw' p.2 sels (.milestones i) h0 hn
+        exact ih (ws', step ws' p.2 (.milestones i)) sels' hr hw' h' hn'
+      · rw [if_neg he]
+        obtain ⟨sels', h', hn'⟩ := step_inv ws' hw' {} [] (.milestones i) (inv_empty ws') rfl
+        exact ih (ws', step ws' {} (.milestones i)) sels' hr hw' h' hn'
+
+/-- **the index is right after any history, text replacements included**: whatever text the resource had before,
+whatever milestones and selections were made on it, after `with_string` and whatever follows the index is an index of
+the text the resource has now, and the conversions on it are exact -/
+theorem reachableT_idxWF (ws0 : List Nat) (hw : WidthsWF ws0) (ops : List TOp) (hops : ∀ o ∈ ops, o.wf) :
+    IdxWF (proj (runT ws0 ops).2.idx) (runT ws0 ops).1 := by
+  obtain ⟨_, sels', h⟩ := foldlT_inv ops (ws0, {}) [] hops hw (inv_empty ws0) rfl
+  exact idxWF_of_inv _ _ _ h
+
+theorem conversion_exact_after_text_replacement (ws0 : List Nat) (hw : WidthsWF ws0) (ops : List TOp) (hops : ∀ o ∈ ops, o.wf)
+    (p : Nat) (hp : p ≤ (runT ws0 ops).1.length) :
+    utf8byte (proj (runT ws0 ops).2.idx) (runT ws0 ops).1 p = .ok (prefixB (runT ws0 ops).1 p) := by
+  obtain ⟨hw', _, h⟩ := foldlT_inv ops (ws0, {}) [] hops hw (inv_empty ws0) rfl
+  exact utf8byte_naive _ _ hw' (idxWF_of_inv _ _ _ h) p hp
+
+/-- a replaced text keeps nothing of the old one: the history before a replacement of a non-empty text is immaterial -/
+theorem retext_forgets (ws0 : List Nat) (before : List TOp) (ws' : List Nat) (i : Nat) (after : List TOp)
+    (hne : (runT ws0 before).1 ≠ []) :
+    runT ws0 (before ++ .retext ws' i :: after) = runT ws' (.op (.milestones i) :: after) := by
+  simp only [runT, List.foldl_append, List.foldl_cons, stepT]
+  have : (List.foldl stepT (ws0, {}) before).1.isEmpty = false := by
+    cases h : (List.foldl stepT (ws0, {}) before).1 with
+    | nil => exact absurd h hne
+    | cons a b => rfl
+  simp [this]
+
 /-! ### the positions in use -/
 
 def selAt (mode : Mode) (sels : List Sel) (x : Nat) : Prop :=
